@@ -544,6 +544,7 @@ namespace SplineTrajectory
         {
             active_time_map_ = &default_time_map_;
             active_spatial_map_ = &default_spatial_map_;
+            ensureLayoutCache();
         }
 
         SplineOptimizer(const SplineOptimizer &other)
@@ -628,6 +629,7 @@ namespace SplineTrajectory
         {
             active_spatial_map_ = (map != nullptr) ? map : &default_spatial_map_;
             markLayoutDirty();
+            ensureLayoutCache();
         }
 
         /**
@@ -675,6 +677,7 @@ namespace SplineTrajectory
             ref_bc_ = bc;
             num_segments_ = static_cast<int>(ref_times_.size());
             markLayoutDirty();
+            ensureLayoutCache();
 
             is_valid_ = checkValidity();
             
@@ -690,6 +693,7 @@ namespace SplineTrajectory
         {
             flags_ = flags;
             markLayoutDirty();
+            ensureLayoutCache();
         }
         void setEnergyWeights(double rho_energy) { rho_energy_ = rho_energy; }
         void setIntegralNumSteps(int steps) { integral_num_steps_ = steps; }
